@@ -873,6 +873,11 @@ pub fn range_ops(case: &mut Case, n: usize, full: bool) -> Vec<Vec<Op>> {
                 ops.push(Op::Splice { v: 0, lo: canon.0, hi: canon.1, typed: false, repl: Repl::Wrappers(ids(case)), script: steps.clone(), end: End::Drop });
                 ops.push(Op::Splice { v: 0, lo: canon.0, hi: canon.1, typed: true, repl: Repl::Wrappers(ids(case)), script: steps.clone(), end: End::Drop });
                 ops.push(Op::Splice { v: 0, lo: canon.0, hi: canon.1, typed: false, repl: Repl::Raws(ids(case)), script: steps.clone(), end: End::Drop });
+                if k >= 1 && bits.len() <= 2 {
+                    // the replacement gains its last item(s) while the splice handle is alive
+                    ops.push(Op::Splice { v: 0, lo: canon.0, hi: canon.1, typed: false, repl: Repl::Growing(ids(case), 1), script: steps.clone(), end: End::Drop });
+                    ops.push(Op::Splice { v: 0, lo: canon.0, hi: canon.1, typed: true, repl: Repl::Growing(ids(case), k.min(2)), script: steps.clone(), end: End::Drop });
+                }
                 if k <= OTHER_LEN {
                     ops.push(Op::Splice { v: 0, lo: canon.0, hi: canon.1, typed: false, repl: Repl::DrainOf(OTHER, 0, k), script: steps.clone(), end: End::Drop });
                     if k >= 1 && bits.is_empty() {
